@@ -229,7 +229,7 @@ pub fn run(ctx: &mut Ctx) {
         return;
     }
     let tp = TempProject::new("sched");
-    let ncases = if ctx.thorough() { 60_000 } else { 2_500 };
+    let ncases = if ctx.thorough() { 60_000 } else { 6_000 };
     let clock = Arc::new(Mutex::new(1000i64));
     let mut produced = 0;
     while produced < ncases {
